@@ -23,6 +23,17 @@ What the code does (manager.go / pipeline.go at the pinned commit):
 * `StartPipeline` / `synchronizePipelines` (manager start, periodic sync) read the
   row (`last_log_id`) and start a handler from it; in-memory state is lost on stop.
 
+* between the handler and the exporter sits the real `drivers.Batcher` (production
+  wiring `NewWithBatchingDriverFactory`): `Batcher.Accept` sends the logs of the
+  page one by one to the batcher loop, which calls the exporter with chunks of
+  `maxItems` logs (an incomplete last chunk when its flush timer fires; no
+  `maxItems`: the whole page on the timer). It never stops after a failed chunk.
+  `Batcher.commit`: a whole-call error fails every item of the chunk, otherwise an
+  item fails iff its own entry in the exporter's error slice is non-nil;
+  `Batcher.Accept` returns nil iff no item of the page failed. So an exporter
+  call is the step `accept`, and the cursor moves only after a page without any
+  failed item (`Pc.exporting … pos bad gate`).
+
 Log ids of the ledger are `1..nLogs` (visible in id order — that is property C16's
 business; the handler's `id > lastLogID` filter relies on it). A batch is the
 half-open interval `(lo, hi]`, i.e. ids `lo+1 … hi`. `0` stands for SQL `NULL` /
@@ -42,10 +53,14 @@ structure Cfg where
   sync : Bool
   /-- `ResetPipeline` is available -/
   allowReset : Bool
+  /-- `batching.maxItems` of the exporter configuration (0 = unlimited: the
+      batcher flushes on its interval only) -/
+  maxItems : Nat := 0
   deriving Repr, DecidableEq
 
 /-- the code as it is -/
-def Cfg.real (ps : Nat) : Cfg := { ps := ps, sync := false, allowReset := true }
+def Cfg.real (ps : Nat) (maxItems : Nat := 0) : Cfg :=
+  { ps := ps, sync := false, allowReset := true, maxItems := maxItems }
 
 /-- Where the handler goroutine is blocked. -/
 inductive Pc
@@ -56,8 +71,13 @@ inductive Pc
   /-- `select {stop, timer}` after a `ListLogs` error; then the top `select`
       with the `nextInterval` left by the previous round -/
   | fetchErr
-  /-- `Accept(lo+1..hi)` in flight, handler in `select {result, stop}` -/
-  | exporting (lo hi : Nat) (more : Bool)
+  /-- `Accept(lo+1..hi)` in flight, handler in `select {result, stop}`. The real
+      `drivers.Batcher` cuts the page into exporter calls of `maxItems` logs:
+      ids `≤ pos` went through the exporter already, `bad`: one of them came
+      back with an error (whole call or its own item error), `gate`: the next
+      chunk is inside the exporter call (`false`: it is incomplete and waits for
+      the batcher's flush timer) -/
+  | exporting (lo hi : Nat) (more : Bool) (pos : Nat) (bad gate : Bool)
   /-- `select {stop, retry timer}` after an `Accept` error; same batch next -/
   | retry (lo hi : Nat) (more : Bool)
   /-- blocked in `ingestedLogs <- lastLogID` (persister busy); no stop possible -/
@@ -100,8 +120,11 @@ structure State where
   recv : List (Nat × Nat)
   /-- ghost: highest id the exporter received since the last reset -/
   delivHW : Nat
-  /-- ghost: highest id the exporter acknowledged since the last reset -/
+  /-- ghost: highest id of a page `Accept` reported as fully acknowledged since the last reset -/
   ackHW : Nat
+  /-- ghost: ids the exporter acknowledged ITEM BY ITEM (its own error nil in a
+      call without whole-call error) since the last reset -/
+  acked : List Nat
   /-- ghost: number of `UpdatePipeline(last_log_id = NULL)` executed -/
   resets : Nat
   /-- ghost: number of handlers started -/
@@ -110,7 +133,8 @@ structure State where
 
 def State.init : State :=
   { nLogs := 0, created := false, persisted := 0, mgrUp := true, handler := none, cur := none,
-    orphans := [], pending := none, recv := [], delivHW := 0, ackHW := 0, resets := 0, gen := 0 }
+    orphans := [], pending := none, recv := [], delivHW := 0, ackHW := 0, acked := [], resets := 0,
+    gen := 0 }
 
 inductive AcceptRes
   /-- batch received and acknowledged -/
@@ -119,7 +143,14 @@ inductive AcceptRes
   | fail
   /-- batch received, acknowledgement lost (error returned) -/
   | lost
+  /-- call succeeds, item number `off` (mod chunk length) comes back with an
+      item-level error and is not stored; the other items are acknowledged -/
+  | reject (off : Nat)
   deriving Repr, DecidableEq
+
+def AcceptRes.isOk : AcceptRes → Bool
+  | .ok => true
+  | _ => false
 
 inductive Label
   /-- `n` new logs committed -/
@@ -127,13 +158,13 @@ inductive Label
   | create | start | stop | reset | sync | mgrStop | mgrStart
   /-- the pending `ListLogs` executes (`ok = false`: it fails) -/
   | fetch (ok : Bool)
-  /-- the pending `Accept` executes -/
+  /-- the pending exporter call (one chunk) executes -/
   | accept (r : AcceptRes)
   /-- the `i`-th pending `StorePipelineState` (orphans first, then the running
       persister) executes; `ok = false`: it fails. `coin` resolves Go's random
       `select` when both the stop signal and a zero timer are ready. -/
   | persist (i : Nat) (ok : Bool) (coin : Bool)
-  /-- the pending handler timer fires -/
+  /-- the pending timer fires: the handler's, or the batcher's flush timer -/
   | tick
   deriving Repr, DecidableEq
 
@@ -143,7 +174,7 @@ def startHandler (s : State) (last : Nat) : State :=
 
 /-- `UpdatePipeline(enabled = true, last_log_id = NULL)`; a new export epoch begins. -/
 def resetRow (s : State) : State :=
-  { s with persisted := 0, recv := [], delivHW := 0, ackHW := 0, resets := s.resets + 1 }
+  { s with persisted := 0, recv := [], delivHW := 0, ackHW := 0, acked := [], resets := s.resets + 1 }
 
 /-- What the waiting operation does once `Shutdown` returned. -/
 def finishOp (s : State) : State :=
@@ -188,9 +219,40 @@ def deliver (s : State) (lo hi : Nat) : State :=
 
 def ack (s : State) (hi : Nat) : State := { s with ackHW := max s.ackHW hi }
 
+/-- ids `lo+1 … hi` -/
+def idsOf (lo hi : Nat) : List Nat := List.range' (lo + 1) (hi - lo)
+
+def ackItems (s : State) (ids : List Nat) : State := { s with acked := ids ++ s.acked }
+
+/-- end of the chunk the batcher cuts off at `pos` -/
+def chunkEnd (c : Cfg) (pos hi : Nat) : Nat :=
+  if c.maxItems = 0 then hi else min (pos + c.maxItems) hi
+
+/-- the chunk reaches `maxItems`: committed at once; otherwise on the flush timer -/
+def chunkFull (c : Cfg) (pos hi : Nat) : Bool :=
+  c.maxItems != 0 && decide (pos + c.maxItems ≤ hi)
+
+/-- `Batcher.Accept(lo+1..hi)` starts: every log is sent to the batcher loop -/
+def enterExport (c : Cfg) (lo hi : Nat) (more : Bool) : Pc :=
+  .exporting lo hi more lo false (chunkFull c lo hi)
+
+/-- one call of the exporter driver with the chunk `(a, b]` -/
+def exporterCall (s : State) (a b : Nat) : AcceptRes → State
+  | .ok => ackItems (deliver s a b) (idsOf a b)
+  | .fail => s
+  | .lost => deliver s a b
+  | .reject off => ackItems (deliver s a b) ((idsOf a b).eraseIdx (off % (b - a)))
+
 /-- `UPDATE … SET last_log_id = v WHERE id = …` -/
 def write (ok : Bool) (v : Nat) (s : State) : State :=
   if ok && s.created then { s with persisted := v } else s
+
+/-- `Accept` returned nil: the cursor moves to the end of the page and is handed
+    to the persister (which may be busy). -/
+def exportDone (c : Cfg) (s : State) (h : Handler) (hi : Nat) (more : Bool) : State :=
+  match s.cur with
+  | none => afterSend c { ack s hi with cur := some hi } { h with last := hi } more true
+  | some _ => { ack s hi with handler := some { h with last := hi, pc := .sending more } }
 
 def opsOpen (s : State) : Bool := s.mgrUp && s.pending.isNone
 
@@ -243,7 +305,7 @@ def step (c : Cfg) (s : State) : Label → Option State
       | .atFetch =>
         if ok then
           if h.last < min (h.last + c.ps) s.nLogs then
-            some (atSelect c s h (.exporting h.last (min (h.last + c.ps) s.nLogs)
+            some (atSelect c s h (enterExport c h.last (min (h.last + c.ps) s.nLogs)
               (decide (h.last + c.ps < s.nLogs))))
           else some (atSelect c s { h with zero := false } .idle)
         else some (atSelect c s h .fetchErr)
@@ -253,16 +315,17 @@ def step (c : Cfg) (s : State) : Label → Option State
     | none => none
     | some h =>
       match h.pc with
-      | .exporting lo hi more =>
-        match r with
-        | .ok =>
-          match s.cur with
-          | none =>
-            some (afterSend c { deliver (ack s hi) lo hi with cur := some hi } { h with last := hi } more true)
-          | some _ =>
-            some { deliver (ack s hi) lo hi with handler := some { h with last := hi, pc := .sending more } }
-        | .fail => some (atSelect c s h (.retry lo hi more))
-        | .lost => some (atSelect c (deliver s lo hi) h (.retry lo hi more))
+      | .exporting lo hi more pos bad true =>
+        -- `Batcher.commit`: whole-call error → every item fails; otherwise an item
+        -- fails iff its own error is non-nil. `Batcher.Accept` reports success iff
+        -- no item of the page failed, and never stops sending after a failure.
+        if chunkEnd c pos hi < hi then
+          some { exporterCall s pos (chunkEnd c pos hi) r with
+                 handler := some { h with pc := .exporting lo hi more (chunkEnd c pos hi) (bad || !r.isOk)
+                                            (chunkFull c (chunkEnd c pos hi) hi) } }
+        else if bad || !r.isOk then
+          some (atSelect c (exporterCall s pos (chunkEnd c pos hi) r) h (.retry lo hi more))
+        else some (exportDone c (exporterCall s pos (chunkEnd c pos hi) r) h hi more)
       | _ => none
   | .persist i ok coin =>
     if hi : i < s.orphans.length then
@@ -286,7 +349,9 @@ def step (c : Cfg) (s : State) : Label → Option State
       match h.pc with
       | .idle => some { s with handler := some { h with pc := .atFetch } }
       | .fetchErr => some { s with handler := some { h with pc := if h.zero then .atFetch else .idle } }
-      | .retry lo hi more => some { s with handler := some { h with pc := .exporting lo hi more } }
+      | .retry lo hi more => some { s with handler := some { h with pc := enterExport c lo hi more } }
+      | .exporting lo hi more pos bad false =>
+        some { s with handler := some { h with pc := .exporting lo hi more pos bad true } }
       | _ => some s
 
 /-- Run a list of labels; `none` as soon as one is not enabled. -/
